@@ -11,7 +11,9 @@ package c05
 
 import (
 	"crypto/sha256"
+	"encoding/json"
 	"fmt"
+	"os"
 	"sort"
 	"strings"
 	"testing"
@@ -51,12 +53,14 @@ type Prog struct {
 }
 
 // Fault kinds. "good" is the member's correct share.
-//   garbage      96 pseudo-random bytes as the share signature
-//   infinity     the compressed point at infinity as the share signature
-//   other-root   a valid BLS signature by the member's own share key, but over another root
-//   other-key    a valid BLS signature over the right root, by a key that is not the member's share key
-//   wrong-root   the message names another signing root (whole message must be refused)
-//   wrong-slot   the message names another slot (whole message must be refused)
+//
+//	garbage      96 pseudo-random bytes as the share signature
+//	infinity     the compressed point at infinity as the share signature
+//	other-root   a valid BLS signature by the member's own share key, but over another root
+//	other-key    a valid BLS signature over the right root, by a key that is not the member's share key
+//	wrong-root   the message names another signing root (whole message must be refused)
+//	wrong-slot   the message names another slot (whole message must be refused)
+//
 // "share sent twice", "bad then good" and "good then bad" arise from several arrivals of one member.
 var faultKinds = []string{"good", "garbage", "infinity", "other-root", "other-key", "wrong-root", "wrong-slot"}
 
@@ -430,4 +434,27 @@ func TestPropThresholdSubmissionMultiRoot(t *testing.T) {
 func TestReplay(t *testing.T) {
 	prog.Replay(t, "C05", "TestPropThresholdSubmission", run)
 	prog.Replay(t, "C05", "TestPropThresholdSubmissionMultiRoot", run)
+}
+
+// TestShow prints the full verdict (with the delivery trace) for a saved program: VERIF_SHOW=<replay file>.
+func TestShow(t *testing.T) {
+	path := os.Getenv("VERIF_SHOW")
+	if path == "" {
+		t.Skip("VERIF_SHOW not set")
+	}
+	raw, err := os.ReadFile(path)
+	if err != nil {
+		t.Fatal(err)
+	}
+	var ff prog.FailFile
+	var p Prog
+	if json.Unmarshal(raw, &ff) != nil || json.Unmarshal(ff.Program, &p) != nil {
+		t.Fatal("not a replay file")
+	}
+	r := prog.Guard(func() *prog.Result { return run(p) })
+	if r.Fail != nil {
+		fmt.Printf("FAIL %s\n%s\n", r.Fail.Sig, r.Fail.Msg)
+	} else {
+		fmt.Printf("PASS nontrivial=%v classes=%v\n", r.NonTrivial, r.Classes)
+	}
 }
